@@ -34,7 +34,7 @@ BOUNDS = {"quick": "all real affines with voxel sizes from {0.375, 0.5, 1, 2, 3,
                    "float32, float64, with/without header scaling; sharding strings '1,2,3' / gzip; compact form: 4x4 matrices with one or two "
                    "symbolic entries D*10^-k, every integer |D| < 10^6 (all digit counts / trailing-zero patterns), every k in -20..20, "
                    "among fixed entries covering integers, fractions, exponent notation of both signs",
-          "thorough": "more voxel-size triples; compact form |D| < 10^11"}
+          "thorough": "48 voxel-size triples from {0.25, 0.375, 0.5, 1, 2, 3, 4, 8}^3; compact form |D| < 10^11"}
 OUTSIDE = ["compact URL form for doubles that are not the nearest double of a decimal with at most 6 significant digits "
            "(their shortest repr is produced by C code; the model is validated against CPython by harness 'reprmodel')", "nibabel header parsing",
            "float rounding in the matrix arithmetic"]
@@ -43,6 +43,12 @@ OUTSIDE = ["compact URL form for doubles that are not the nearest double of a de
 def configs(tier, seed):
     out = []
     vs_list = [(1.0, 1.0, 1.0), (0.5, 1.0, 2.0), (2.0, 2.0, 0.5), (0.375, 1.0, 4.0), (1.0, 0.5, 0.5), (3.0, 1.0, 1.0), (0.5, 0.5, 0.5), (2.0, 1.0, 3.0)]
+    if tier == "thorough":
+        import itertools
+        import random
+        allv = list(itertools.product((0.25, 0.375, 0.5, 1.0, 2.0, 3.0, 4.0, 8.0), repeat=3))
+        random.Random(seed).shuffle(allv)
+        vs_list = vs_list + [v for v in allv if v not in vs_list][:40]
     for i, vs in enumerate(vs_list):
         out.append(dict(harness="transform", vs=list(vs), cost=1, timeout_ms=60000))
     cases = [((3, 2, 4), "uint8", None), ((2, 3, 1, 2), "uint16", None), ((2, 2, 2), "int16", None), ((1, 5, 2), "float32", None),
